@@ -394,6 +394,10 @@ Definition tag_inert (n : str) (attrs : list (str * str)) : bool :=
   && negb (mem_str n forbidden_elements)
   && forallb (attr_inert n) attrs.
 
+(** End tags: bluemonday writes token.String() of an end tag it keeps, attributes included and
+    unfiltered; the x/net/html tokenizer never reports attributes on end tags and browsers ignore
+    them, so the model passes them through (faithful) and the spec does not constrain them: the
+    inertness claim is about start and self-closing tags. *)
 Definition otoken_inert (o : otoken) : bool :=
   match o with
   | OStart n attrs | OSelf n attrs => tag_inert n attrs
